@@ -32,6 +32,7 @@ def families(tier, seed):
         out.append(dict(name=f'C16 random token sequences depth<={depth} part {i}', run=pc.random_sequences(seed * 1000 + i, n, depth), label='bounded'))
     for i in range(parts // 2):
         out.append(dict(name=f'C16 synonyms, comments, flatten-then-parse part {i}', run=pc.synonyms(seed * 1000 + 500 + i, n), label='bounded'))
+    out.append(dict(name='C16 one-line comments and the placement of the line break', run=pc.comment_line_breaks(seed, n), label='bounded'))
     for i in range(parts // 2):
         out.append(dict(name=f'C16 split_gr1 part {i}', run=pc.split_family(seed * 1000 + 700 + i, n), label='bounded'))
     from contracts import optdiff as _od
